@@ -17,7 +17,9 @@ EXPLANATION = (
     "and Div folds constants only under divisor != 0; (equal-strict) shape_ops::Equal yields the constant 0 only on paths whose "
     "last test is a strict `max < min` comparison of the two operands' ranges and the constant 1 only under operand equality; "
     "(scalar-rank) Where and the binary value path build a scalar result only when all inputs are scalars and a vector otherwise; "
-    "(delegation) Operator::as_infer_shapes is called only by the graph inference driver. Whether each inference function "
+    "a graph constant becomes a rank-0 symbolic value only under ndim() == 0; (forward-offsets) Slice inference picks values "
+    "with a resolved SliceRange only under a positive-step test and builds the range end in the same form as the operator "
+    "(no INT_MAX -> open end rewrite); (delegation) Operator::as_infer_shapes is called only by the graph inference driver. Whether each inference function "
     "computes the right shape for all inputs is value-level and not decided.")
 ASSUMPTIONS = ["an inference type named like the operator implements that operator's ONNX shape rule"]
 INF = 'rten_shape_inference::infer_shapes::InferShapes'
